@@ -14,6 +14,9 @@ import shutil
 import subprocess
 import sys
 import time
+import tempfile
+
+IN_REPO = False
 
 V = "/verif"
 PY = "/venv/bin/python"
@@ -78,19 +81,35 @@ def run(ids, tier="quick", extra=""):
         meta = json.load(open(mp))
         if not meta.get("kept"):
             continue
-        rc, out = sh("git -C /repo status --porcelain --untracked-files=no")
-        if out.strip():
-            sys.exit("refusing: /repo has uncommitted changes:\n" + out)
-        rc, out = sh("git -C /repo apply %s" % os.path.join(d, "patch.diff"))
-        if rc != 0:
-            print("%-28s PATCH DOES NOT APPLY" % sid)
-            continue
         t0 = time.time()
-        try:
-            rc, out = sh("./check %s --tier %s --no-evidence %s" % (meta["property"], tier, extra), cwd=V,
-                         env={"XSIM_REPLAY_DIR": "/tmp/seeded-replays"})
-        finally:
-            sh("git -C /repo checkout -- .")
+        if IN_REPO:
+            # the way the brief describes it: apply to /repo, run, undo straight afterwards
+            rc, out = sh("git -C /repo status --porcelain --untracked-files=no")
+            if out.strip():
+                sys.exit("refusing: /repo has uncommitted changes:\n" + out)
+            rc, out = sh("git -C /repo apply %s" % os.path.join(d, "patch.diff"))
+            if rc != 0:
+                print("%-28s PATCH DOES NOT APPLY" % sid)
+                continue
+            try:
+                rc, out = sh("./check %s --tier %s --no-evidence %s" % (meta["property"], tier, extra), cwd=V,
+                             env={"XSIM_REPLAY_DIR": "/tmp/seeded-replays"})
+            finally:
+                sh("git -C /repo checkout -- .")
+        else:
+            # default: a scratch copy of /repo's working tree selected through XFAB_SRC (leaves /repo untouched,
+            # so background soaks that use /repo are not disturbed); removed afterwards
+            scratch = tempfile.mkdtemp(prefix="xsim-seeded-")
+            try:
+                shutil.copytree("/repo/xfab", os.path.join(scratch, "xfab"), ignore=shutil.ignore_patterns("__pycache__"))
+                rc, out = sh("patch -p1 -s -d %s -i %s" % (scratch, os.path.join(d, "patch.diff")))
+                if rc != 0:
+                    print("%-28s PATCH DOES NOT APPLY: %s" % (sid, out[:200]))
+                    continue
+                rc, out = sh("./check %s --tier %s --no-evidence %s" % (meta["property"], tier, extra), cwd=V,
+                             env={"XSIM_REPLAY_DIR": os.path.join(scratch, "replays"), "XFAB_SRC": scratch})
+            finally:
+                shutil.rmtree(scratch, ignore_errors=True)
         first = [l for l in out.splitlines() if l.startswith("violation") or l.startswith("HARNESS")][:1]
         meta.setdefault("detection", {})[tier] = {"check": "./check %s --tier %s" % (meta["property"], tier), "rc": rc,
                                                   "detected": rc == 1, "first_violation": (first[0][:400] if first else ""),
@@ -113,6 +132,9 @@ if __name__ == "__main__":
         extra = ""
         ids = []
         for a in args:
+            if a == "--in-repo":
+                IN_REPO = True
+                continue
             if a.startswith("--tier="):
                 tier = a.split("=")[1]
             elif a.startswith("--extra="):
